@@ -160,10 +160,15 @@ TABLE["C15"] = [
     H("c15_peel_step", functions=["<u64 as BC64>::peel"], domain="every u64 set (one step from an arbitrary state = every history)",
       bound="unwind 53 covers the 52-entry deck scan", draws="b0:u64 (priming), b:u64"),
     H("c15_peel_sequence", functions=["<u64 as BC64>::peel"], domain="every two-card set, four peels", bound="unwind 53", draws="b:u64"),
+    H("c15_from_index_long", timeout=1800, functions=["<u64 as BC64>::from_index", "BC64::from_ckc", "fold_in"],
+      domain="token streams of 0..=64 tokens, every token over {52 cards, blank}, repeats allowed", bound="at most 64 tokens; unwind 67",
+      assume=["S6-long: <SplitWhitespace as Iterator>::next stubbed by a counter that hands out n tokens; <u32 as PokerCard>::from_index stubbed by 'token k -> symbolic word LV[k]' "
+              "(the real token parser's range {52 cards, blank} is decided on raw bytes by c12_token); natively nothing is stubbed"],
+      draws="n:u8, (r,s)*64"),
 ]
 PROPERTY_META["C15"] = {
     "claim": "constructors = OR of S1 bits of the real cards among the slots; union/subset/count/validity identities for all u64; peel is exact for every state",
-    "outside": "from_index over raw text is decided under the token-stream abstraction (C12 harness c12_bitset_parser)",
+    "outside": "from_index over raw text is decided under the token-stream abstraction (short streams with the hand parsers: C12 harness c12_hand_parsers; streams of up to 64 tokens: c15_from_index_long); texts of more than 64 tokens",
     "assumptions": COMMON_ASSUME,
 }
 
@@ -286,6 +291,9 @@ C02_HIST_FIVE = H("c01_five_history", timeout=1500, functions=["Five::{hand_rank
       assume=["the five-card primitive is an arbitrary function with pre-drawn results (wiring stub): state kept above it (memo, cache) is exposed"], draws="((r,s)*7, fv:u16)*4")
 C05_FIND_HIST = H("c05_find_history", solver="kissat", timeout=1800, functions=["Five::find_in_products called four times"],
       domain="two arbitrary usize keys, then the largest and the smallest product", bound="histories of length 4; unwind 14", draws="k0:usize, k1:usize")
+C01_HIST_PAIRED = H("c01_five_history_paired", tier="thorough", solver="kissat", timeout=4000, functions=EVAL,
+      domain="two hands of five distinct cards with a repeated rank, each in descending slot order: rank the first, then the second",
+      bound="histories of length 2 on the product path of the REAL evaluator; unwind 14", draws="(r,s)*5, (r,s)*5")
 TABLE["C01"] = [
     H("c01_flush_any_order", cross_solver=True, solver="kissat", timeout=1800, functions=EVAL, domain="five distinct cards of one suit, any slot order (5,148 hands x 120 orders)", bound="whole domain; unwind 14", draws="(r,s)*5"),
     H("c01_distinct_any_order", solver="kissat", timeout=1800, functions=EVAL, domain="five distinct cards, five distinct ranks, not one suit, any slot order (1,312,272 hands x 120)", bound="whole domain; unwind 14", draws="(r,s)*5"),
@@ -298,6 +306,7 @@ TABLE["C01"] = [
       domain=f"five distinct cards with a repeated rank, ANY slot order, partition: rank of slot 0 is {j}", bound="whole partition; unwind 14", draws="(r,s)*5")
     for j in range(13)
 ] + WIRING(sizes=("five",), validated=("five",)) + [C02_HIST_FIVE, C05_FIND_HIST] + [
+    C01_HIST_PAIRED,
     H("c01_five_history_distinct", tier="thorough", solver="kissat", timeout=4000, functions=EVAL + ["Five::hand_rank_value_validated", "Five::is_valid"],
       domain="two hands of five distinct cards with five distinct ranks (flush or not), any slot orders: rank the first (both entry points), then the second",
       bound="histories of length 2 on the table path of the REAL evaluator; unwind 14", draws="(r,s)*5, (r,s)*5"),
@@ -422,6 +431,7 @@ TABLE["C09"] = [
     H("c09_six_vs_five", fallback=FB, timeout=1800, functions=["Six::hand_rank_value", "Five::hand_rank_value (stub)"], domain="six distinct real cards, any order, all six five-card sub-hands; S5 evaluator",
       bound="whole domain; unwind 14", assume=S5NOTE, draws="(r,s)*7 (first six used), then T"),
 ]
+TABLE["C09"] += [C01_HIST_PAIRED]
 PROPERTY_META["C09"] = {
     "claim": "v7 <= every v6 and == min v6; v6 <= every v5 and == min v5 — for every evaluator with the S5 facts, all slot orders",
     "outside": "as C02 (S5 abstraction of the five-card evaluator)",
